@@ -235,6 +235,8 @@ pub struct XzFile {
     pub idx_count: Option<u64>,
     /// override (record index, which: 0 unpadded / 1 unpacked, value)
     pub idx_rec: Option<(usize, u8, u64)>,
+    /// add (record index, which, delta) to the correct value
+    pub idx_rec_add: Option<(usize, u8, u64)>,
     pub idx_pad_byte: Option<u8>,
     pub idx_pad_pat: u8,
     /// OR-ed into the second stream-flags byte of the header / footer (reserved high nibble)
@@ -403,6 +405,15 @@ impl XzFile {
                         a = val
                     } else {
                         b = val
+                    }
+                }
+            }
+            if let Some((ri, which, delta)) = self.idx_rec_add {
+                if ri == i {
+                    if which == 0 {
+                        a += delta
+                    } else {
+                        b += delta
                     }
                 }
             }
